@@ -430,4 +430,16 @@ Proof.
     pose proof (Nat.div_mod (ncols A) b ltac:(lia)). lia.
 Qed.
 
+(* consequence: the scalar matrix recovered from the block matrix has the same action *)
+Theorem unblock_block_Ax (b : nat) (A : crs) (x : vec) i :
+  0 < b -> nrows A mod b = 0 -> ncols A mod b = 0 ->
+  Forall (fun r => sorted_strict r = true) (rows A) ->
+  i < nrows A ->
+  Ax (unblock b (to_gcrs (block_adapter b (crs_view A)))) x i = Ax A x i.
+Proof.
+  intros Hb Hr Hc Hs Hi. unfold Ax.
+  destruct (unblock_block_dims b A Hb Hr Hc) as [_ Ec]. rewrite Ec.
+  apply sumn_ext. intros j Hj. rewrite unblock_block_dense by assumption. reflexivity.
+Qed.
+
 End Ring.
